@@ -34,7 +34,7 @@ META = {
         "technique": "runtime monitoring: history replay against an executable sequential model",
     },
     "C07": {
-        "level": "runtime monitor comparing the five content views (taken in a random order, again in reverse order, and on a clone) with each other and with the byte/text model of the spec, plus fault injection: a writer failing after k bytes (short writes included) for every k (thorough) or sampled k (quick)",
+        "level": "runtime monitor comparing the five content views (taken in a random order, again in reverse order, and on a clone; trees include replacement ranges with end < start, for which the views are compared with each other only) with each other and with the byte/text model of the spec, plus fault injection: a writer failing after k bytes (short writes included) for every k (thorough) or sampled k (quick)",
         "design_ref": "DESIGN.md section 4, C07",
         "note": _TB,
         "technique": "runtime monitoring with fault injection at the writer boundary",
@@ -64,13 +64,13 @@ META = {
         "technique": "runtime monitoring: child-vs-composite attribution oracle with splice position map",
     },
     "C08": {
-        "level": "runtime monitor: all four (columns, final_source) streaming variants of a SourceMapSource, of a user-defined source going through the public stream_chunks_default with &str and with a multi-piece Rope, and map() of an enclosing ConcatSource are compared per character with the reference lookup in the given map (sourceRoot applied), plus the announced tables",
+        "level": "runtime monitor: all four (columns, final_source) streaming variants of a SourceMapSource, of a user-defined source going through the public stream_chunks_default with &str and with a multi-piece Rope, and map() of an enclosing ConcatSource are compared per character with the reference lookup in the given map (sourceRoot applied: none, empty, with / without one trailing slash, URL-like roots ending in several slashes), plus the announced tables",
         "design_ref": "DESIGN.md section 4, C08",
         "note": _TB + "; for empty text nothing needs to be announced (DESIGN 3.6.1)",
         "technique": "runtime monitoring: recorded streams vs reference map lookup",
     },
     "C09": {
-        "level": "runtime monitor: map() of a SourceMapSource with inner map is decoded independently and compared per character with a reference composition over the decoded outer and inner maps (inner lookup, fallback to the inner source or removal, pass-through, contents, names)",
+        "level": "runtime monitor: map() of a SourceMapSource with inner map is decoded independently and compared per character with a reference composition over the decoded outer and inner maps (inner lookup, fallback to the inner source or removal, pass-through, contents, names; sourceRoot on either map, the source named like the resolved outer source)",
         "design_ref": "DESIGN.md section 4, C09",
         "note": _TB,
         "technique": "runtime monitoring: reference map composition oracle",
@@ -88,7 +88,7 @@ META = {
         "technique": "runtime monitoring: history replay against an uncached reference instance + cache-slot invariant hook",
     },
     "C12": {
-        "level": "runtime monitor with an independent reference codec: exhaustive sweep of all single-field deltas |d| < 2^12 (quick) / 2^20 (thorough) plus all 2^k-1, 2^k, 2^k+1 up to 2^30 in every field and sign through encoder and decoder, then random sorted sequences (subsequence + allowed-drop + attribution + re-encode checks), reference spellings with redundant digits / empty segments / backward columns / ';' runs against the crate decoder, and the lines-only encoder (hook)",
+        "level": "runtime monitor with an independent reference codec: exhaustive sweep of all single-field deltas |d| < 2^12 (quick) / 2^20 (thorough) plus all 2^k-1, 2^k, 2^k+1 up to 2^30 in every field and sign through encoder and decoder, then random sorted sequences (subsequence + allowed-drop + attribution + re-encode checks, each encoded through eleven iterator shapes: adaptors whose size hint has lower bound 0, loose or missing upper bounds, the decoder fed straight back), reference spellings with redundant digits / empty segments / backward columns / ';' runs against the crate decoder, and the lines-only encoder (hook)",
         "design_ref": "DESIGN.md section 4, C12",
         "note": _TB + "; the sweep is exhaustive only for single-field deltas of two-segment inputs",
         "technique": "runtime monitoring: differential testing against a reference VLQ codec, exhaustive delta sweep",
@@ -100,7 +100,7 @@ META = {
         "technique": "runtime monitoring: history-perturbed equality / hash / observer coherence oracle",
     },
     "C20": {
-        "level": "runtime monitor: for pairs one edit apart (28 edit kinds at random depth) and independent pairs whose source()/buffer()/map() differ, hashes (FNV, SipHash, &dyn, update_hash) must differ and == must be false (in every second case maps with equal tables share their allocations: clone() + setters); hashes of a shared case stream are logged by 16 separate worker processes, recomputed in a second thread and after observer histories, and the merged log must be a function",
+        "level": "runtime monitor: for pairs one edit apart (28 edit kinds at random depth; trees include replacement ranges with end < start) and independent pairs whose source()/buffer()/map() differ, hashes (FNV, SipHash, &dyn, update_hash) must differ and == must be false (in every second case maps with equal tables share their allocations: clone() + setters); hashes of a shared case stream are logged by 16 separate worker processes, recomputed in a second thread and after observer histories, and the merged log must be a function",
         "design_ref": "DESIGN.md section 4, C20",
         "note": _TB + "; a genuine 64-bit collision would be reported (expected ~1e-7 per run)",
         "technique": "runtime monitoring: sensitivity oracle over one-edit pairs + offline join of per-process hash logs",
@@ -118,7 +118,7 @@ META = {
         "technique": "runtime monitoring: panic / crash / resource monitor over hostile inputs in debug and release builds",
     },
     "C18": {
-        "level": "three complementary runtime monitors: (1) real OS threads under a token-passing scheduler that switches only at the guarded schedule points inside the library (hook H3) and at callbacks of a user-defined child source; schedules enumerated by DFS with a pre-emption bound plus random walks (tens of thousands of schedules, distinct traces counted); every answer compared with a single-threaded copy, cache stores that replace a value counted by hook, logical deadlock detection through lock probes; the same under AddressSanitizer; (2) free-running 4-8 thread stress under ThreadSanitizer and AddressSanitizer; (3) small thread programs under Miri (data races, dangling borrows, deadlocks)",
+        "level": "three complementary runtime monitors: (1) real OS threads under a token-passing scheduler that switches only at the guarded schedule points inside the library (hook H3) and at callbacks of a user-defined child source; schedules enumerated by DFS with a pre-emption bound plus random walks (tens of thousands of schedules, distinct traces counted); every answer compared with a single-threaded copy, cache stores that replace a value counted by hook, logical deadlock detection through lock probes; the same under AddressSanitizer; (2) free-running 4-8 thread stress under ThreadSanitizer and AddressSanitizer, incl. a lazy-decode family (large invalid UTF-8 leaf, cold, every thread's first call right after a barrier; the decoders have no schedule point); (3) small thread programs under Miri (data races, dangling borrows, deadlocks)",
         "design_ref": "DESIGN.md section 4, C18",
         "note": _TB + "; interleavings are explored at hook granularity with bounded pre-emptions, weak-memory effects only as far as TSan / Miri model them; trees with a CachedSource beneath a ReplaceSource are excluded because their sequential answers depend on the call history (known finding under C03); the oracle presumes history-independent sequential answers (C10); a case whose single-threaded reference panics is not evaluated (C17)",
         "technique": "runtime monitoring: controlled-schedule exploration of real threads + ThreadSanitizer / AddressSanitizer / Miri stress",
